@@ -1,0 +1,197 @@
+//! C14 facade: the real `ISocketConnection` implementations (`ScaConnectionIface`,
+//! `DirectInprocConnection`, `ZmtpSmartConnection`) built over a bounded fibre channel whose
+//! RECEIVER the harness keeps, so that every arm of their send paths (try_send Ok / Full /
+//! Closed x SNDTIMEO 0 / d / -1 x the pipe getting room / being dropped / staying full while the
+//! call waits) can be driven from outside the crate, e.g. under a paused tokio clock.
+//! Nothing here changes what the real code does.
+use crate::error::ZmqError;
+use crate::message::{FrameBatch, Msg};
+use crate::runtime::{mailbox, MailboxReceiver};
+use crate::sessionx::ScaConnectionIface;
+use crate::socket::connection_iface::ISocketConnection;
+use crate::transport::inproc::connection::DirectInprocConnection;
+use fibre::mpsc::{bounded_async, BoundedAsyncReceiver};
+use std::sync::atomic::AtomicBool;
+use std::sync::Arc;
+use std::time::Duration;
+
+#[derive(Clone, Copy, Debug, PartialEq, Eq)]
+pub enum VKind {
+  Sca,
+  Inproc,
+  Uring,
+}
+
+#[derive(Clone, Copy, Debug, PartialEq, Eq)]
+pub enum VMethod {
+  /// `send_message(msg)`
+  Message,
+  /// `send_multipart(batch)`
+  Multipart,
+  /// `send_multipart_owned(batch)`
+  Owned,
+  /// `try_send_multipart_owned_sync(batch)`
+  Sync,
+}
+
+#[derive(Clone, Debug, PartialEq, Eq)]
+pub enum VAnswer {
+  Ok,
+  /// `ZmqError::ResourceLimitReached`
+  WouldBlock,
+  /// `ZmqError::Timeout`
+  Timeout,
+  /// `ZmqError::ConnectionClosed`
+  Closed,
+  Other(String),
+}
+
+/// What came back inside the `Err` of the `_owned` / `_sync` methods.
+#[derive(Clone, Debug, PartialEq, Eq)]
+pub enum VBack {
+  /// the method's signature cannot return the message (`Result<(), ZmqError>`), or the call was Ok
+  Nothing,
+  /// `Err((FrameBatch::new(), e))`
+  Empty,
+  /// `Err((batch, e))` with the batch whose id is given
+  Batch(u64),
+}
+
+fn classify(e: &ZmqError) -> VAnswer {
+  match e {
+    ZmqError::ResourceLimitReached => VAnswer::WouldBlock,
+    ZmqError::Timeout => VAnswer::Timeout,
+    ZmqError::ConnectionClosed => VAnswer::Closed,
+    other => VAnswer::Other(format!("{other}")),
+  }
+}
+
+fn id_batch(id: u64) -> FrameBatch {
+  let mut fb = FrameBatch::new();
+  fb.push(Msg::from_vec(id.to_le_bytes().to_vec()));
+  fb
+}
+
+fn batch_id(fb: &FrameBatch) -> Option<u64> {
+  let d = fb.first().and_then(|m| m.data())?;
+  if d.len() < 8 {
+    return None;
+  }
+  let mut a = [0u8; 8];
+  a.copy_from_slice(&d[..8]);
+  Some(u64::from_le_bytes(a))
+}
+
+/// The sending half: the real connection object.
+#[derive(Clone)]
+pub struct VHwmSender {
+  iface: Arc<dyn ISocketConnection>,
+}
+
+impl VHwmSender {
+  /// Calls the chosen method of the real iface with a one-frame batch carrying `id`.
+  pub async fn send(&self, method: VMethod, id: u64) -> (VAnswer, VBack) {
+    match method {
+      VMethod::Message => match self.iface.send_message(Msg::from_vec(id.to_le_bytes().to_vec())).await {
+        Ok(()) => (VAnswer::Ok, VBack::Nothing),
+        Err(e) => (classify(&e), VBack::Nothing),
+      },
+      VMethod::Multipart => match self.iface.send_multipart(id_batch(id)).await {
+        Ok(()) => (VAnswer::Ok, VBack::Nothing),
+        Err(e) => (classify(&e), VBack::Nothing),
+      },
+      VMethod::Owned => match self.iface.send_multipart_owned(id_batch(id)).await {
+        Ok(()) => (VAnswer::Ok, VBack::Nothing),
+        Err((fb, e)) => (classify(&e), batch_id(&fb).map(VBack::Batch).unwrap_or(VBack::Empty)),
+      },
+      VMethod::Sync => match self.iface.try_send_multipart_owned_sync(id_batch(id)) {
+        Ok(()) => (VAnswer::Ok, VBack::Nothing),
+        Err((fb, e)) => (classify(&e), batch_id(&fb).map(VBack::Batch).unwrap_or(VBack::Empty)),
+      },
+    }
+  }
+}
+
+/// The receiving half of the pipe, kept by the harness.
+pub struct VHwmReceiver {
+  rx: Option<BoundedAsyncReceiver<FrameBatch>>,
+  _stop_rx: Option<MailboxReceiver>,
+}
+
+impl VHwmReceiver {
+  /// pop one batch off the pipe (what the session / the inproc reader does); its id
+  pub fn pop(&self) -> Option<u64> {
+    self.rx.as_ref().and_then(|rx| rx.try_recv().ok()).and_then(|fb| batch_id(&fb))
+  }
+  pub fn len(&self) -> usize {
+    self.rx.as_ref().map(|rx| rx.len()).unwrap_or(0)
+  }
+  /// actual capacity of the fibre channel (may be rounded down from the requested one)
+  pub fn capacity(&self) -> usize {
+    self.rx.as_ref().map(|rx| rx.capacity()).unwrap_or(0)
+  }
+  /// drop the receiver: the pipe is closed from the consumer's side
+  pub fn close(&mut self) {
+    self.rx = None;
+  }
+}
+
+/// A real connection object of the given kind over a fresh bounded pipe of `capacity`
+/// (SNDHWM for sessions / io_uring, the peer's RCVHWM for inproc), with the SNDTIMEO snapshot.
+pub fn new_pipe(kind: VKind, capacity: usize, sndtimeo: Option<Duration>) -> Result<(VHwmSender, VHwmReceiver), String> {
+  let (tx, rx) = bounded_async::<FrameBatch>(capacity.max(1));
+  match kind {
+    VKind::Sca => {
+      let (stop_tx, stop_rx) = mailbox(4);
+      let iface = ScaConnectionIface::new(stop_tx, 1, tx, 2, sndtimeo);
+      Ok((VHwmSender { iface: Arc::new(iface) }, VHwmReceiver { rx: Some(rx), _stop_rx: Some(stop_rx) }))
+    }
+    VKind::Inproc => {
+      let iface = DirectInprocConnection {
+        connection_id: 1,
+        target_endpoint_uri: "inproc://verif-hwm".to_string(),
+        peer_queue_sender: tx,
+        monitor_tx: None,
+        is_congested: Arc::new(AtomicBool::new(false)),
+        sndtimeo,
+      };
+      Ok((VHwmSender { iface: Arc::new(iface) }, VHwmReceiver { rx: Some(rx), _stop_rx: None }))
+    }
+    VKind::Uring => new_uring(tx, rx, sndtimeo),
+  }
+}
+
+#[cfg(feature = "io-uring")]
+fn new_uring(
+  tx: fibre::mpsc::BoundedAsyncSender<FrameBatch>,
+  rx: BoundedAsyncReceiver<FrameBatch>,
+  sndtimeo: Option<Duration>,
+) -> Result<(VHwmSender, VHwmReceiver), String> {
+  use crate::io_uring_backend::ops::WAKEUP_STATE_ACTIVE;
+  use crate::io_uring_backend::zmtp_handler::ZmtpSmartConnection;
+  use std::sync::atomic::{AtomicU8, AtomicUsize};
+  let efd = eventfd::EventFD::new(0, eventfd::EfdFlags::EFD_CLOEXEC | eventfd::EfdFlags::EFD_NONBLOCK)
+    .map_err(|e| format!("eventfd: {e}"))?;
+  let iface = ZmtpSmartConnection::new(
+    -1,
+    tx,
+    efd,
+    Arc::new(AtomicU8::new(WAKEUP_STATE_ACTIVE)),
+    Arc::new(AtomicUsize::new(0)),
+    sndtimeo,
+  );
+  Ok((VHwmSender { iface: Arc::new(iface) }, VHwmReceiver { rx: Some(rx), _stop_rx: None }))
+}
+
+#[cfg(not(feature = "io-uring"))]
+fn new_uring(
+  _tx: fibre::mpsc::BoundedAsyncSender<FrameBatch>,
+  _rx: BoundedAsyncReceiver<FrameBatch>,
+  _sndtimeo: Option<Duration>,
+) -> Result<(VHwmSender, VHwmReceiver), String> {
+  Err("io-uring feature not enabled".into())
+}
+
+/// The constants the send paths fall back to when SNDTIMEO is -1 are literals inside the
+/// functions; the harness measures them (paused clock) instead of reading them.
+pub const NOTE: &str = "fallback durations are observed, not exported";
